@@ -260,6 +260,20 @@ def gen_plan(seed, tier):
     msgs = [W.enc_barrier_reply(0x100 + i) if rt.chance(0.7)
             else W.enc_echo_reply(0x100 + i, b"abcd"[:rt.randint(0, 4)])
             for i in range(k)]
+  rt2 = Rng(mix(seed, "tinysw"))
+  if side == "sw" and rt2.chance(0.06):
+    # the same toward the switch: dozens to a thousand complete minimum-size
+    # requests in one read of its IO worker, nothing behind them
+    tiny = True
+    k = rt2.pick([51, 52, 64, 100, 129, 300, 1025])
+    msgs = []
+    for i in range(k):
+      c = rt2.randrange(10)
+      x = 0x100 + i
+      msgs.append(W.enc_barrier_request(x) if c < 5 else
+                  W.enc_echo_request(x, b"abcd"[:rt2.randint(0, 4)]) if c < 8
+                  else W.enc_get_config_request(x) if c < 9
+                  else W.enc_features_request(x))
   cuts = _cuts(r, msgs)
   if tiny and rt.chance(0.6):
     cuts = []
